@@ -35,17 +35,17 @@ def P(pid, targets, bounded, text, note=None, level="proof", unverified=()):
                      unverified=list(unverified))
 
 
-P("C01", [f"{UT}:rlencode", f"{CR}:index_pixels", f"{CR}:create", f"{CR}:write_pixels", f"{TOP}:get"], "bounded/C01.py",
+P("C01", [f"{UT}:rlencode", f"{CR}:index_pixels", f"{CR}:create_cooler", f"{CR}:create", f"{CR}:write_pixels", f"{TOP}:get"], "bounded/C01.py",
   "Proof core shared with C02 (index construction for every pixel column and chunking). create() itself is verified as a coordinator over a ghost operation log (every helper and h5py call replaced by a recording stub; 41 configurations of mode/append/root-or-nested target/check flags/input forms/single-cell append, symbolic paths, counts and symmetric flag): the caller's "
   "pixels are what is validated and streamed, once, into <group>/pixels; the callers' bins are what is written; columns "
   "are the ids followed by the requested value columns with the caller's dtypes overriding the defaults; assembly and "
   "metadata reach the info record verbatim. The write/read round trip through real HDF5 files is covered by the "
   "bounded tier (all small matrices x input forms x dtypes x metadata documents). write_pixels (the append loop every producer goes through) is verified with ghost dataset contents for EVERY number of chunks and chunk lengths: each pixel column ends up as the concatenation of that column over the chunks in order, its length is the returned nnz (pre-allocated rows dropped when nothing arrived), the returned total is the sum of the count column (integer and float configurations), only the target group of the target file is touched, always opened r+.",
   unverified=["write_bins / write_chroms / write_info bodies (HDF5 I/O; stubs in the create contract)",
-              "create_cooler / ArrayLoader.__iter__", "api.pixels read path"],
+              "ArrayLoader.__iter__", "api.pixels read path", "pandas sort_values (assumed: sorts by both keys)"],
   level="other")
 
-P("C02", [f"{UT}:rlencode", f"{CR}:index_pixels", f"{CR}:index_bins", f"{CR}:create", f"{CR}:write_pixels"], "bounded/C02.py",
+P("C02", [f"{UT}:rlencode", f"{CR}:index_pixels", f"{CR}:index_bins", f"{CR}:create_cooler", f"{CR}:create", f"{CR}:write_pixels"], "bounded/C02.py",
   "Proof: the chunked run-length encoder behind both offset indexes is verified for every input array and EVERY "
   "chunk size (the carry of the last value across each block boundary is a loop invariant; constancy of runs by an "
   "induction lemma); index_pixels / index_bins are proved to build exactly the lower-bound (run-length) index of the sorted key column on top of rlencode's contract. create() itself is verified as a coordinator over a ghost operation log (every helper and h5py call replaced by a recording stub; 41 configurations of mode/append/root-or-nested target/check flags/input forms/single-cell append, symbolic paths, counts and symmetric flag): index_bins and index_pixels are called once, after the pixels are written, on the bin table and pixel table just written under the target group with the bin count and the nnz that write_pixels returned; both results are stored under <group>/indexes; the info record is written last and carries exactly nbins = len(bins), nchroms, the written nnz and sum, the inferred bin size and the storage mode. Producer outputs are re-derived with raw h5py by the bounded tier. write_pixels (the append loop every producer goes through) is verified with ghost dataset contents for EVERY number of chunks and chunk lengths: each pixel column ends up as the concatenation of that column over the chunks in order, its length is the returned nnz (pre-allocated rows dropped when nothing arrived), the returned total is the sum of the count column (integer and float configurations), only the target group of the target file is touched, always opened r+.",
